@@ -92,12 +92,8 @@ func Analyze(prog *Program, res *RunResult, cfg RunCfg, removed map[string]bool)
 			cur.Evals[e.Rule] = append(cur.Evals[e.Rule], e.Cand)
 			cur.EvalOrder = append(cur.EvalOrder, e.Rule)
 		case "setrule":
-			if cur == nil {
-				a.Stray = append(a.Stray, "SetRuleEntry before any BeginCycle")
-				continue
-			}
-			cur.SetRules = append(cur.SetRules, e.Rule)
-			cur.ActSeqLo = e.Seq
+			// bookkeeping of the engine on the data context: not a firing (the engine may name
+			// the rule it is about to evaluate as well as the one it is about to execute)
 		case "exec":
 			if cur == nil {
 				a.Stray = append(a.Stray, "ExecuteRuleEntry before any BeginCycle")
@@ -106,7 +102,10 @@ func Analyze(prog *Program, res *RunResult, cfg RunCfg, removed map[string]bool)
 			if e.Cycle != cur.N {
 				a.Stray = append(a.Stray, fmt.Sprintf("%s carries cycle %d inside cycle %d", e, e.Cycle, cur.N))
 			}
+			// the ExecuteRuleEntry notification is the firing
 			cur.Execs = append(cur.Execs, e.Rule)
+			cur.SetRules = append(cur.SetRules, e.Rule)
+			cur.ActSeqLo = e.Seq
 		case "execdone":
 			if cur != nil {
 				cur.ActStart = e.Seq
@@ -122,14 +121,9 @@ func Analyze(prog *Program, res *RunResult, cfg RunCfg, removed map[string]bool)
 			cur.After = res.After[uint64(e.Seq)]
 		}
 	}
-	// an engine that fires without telling the data context (no SetRuleEntry) or that does not
-	// ask IsComplete is still judged: the firing is then the ExecuteRuleEntry notification and
-	// the end of the action list is the next BeginCycle or the nil return
+	// an engine that does not ask IsComplete after a firing is still judged: the end of the
+	// action list is then the next BeginCycle or the nil return
 	for i, c := range a.Cycles {
-		if len(c.SetRules) == 0 && len(c.Execs) > 0 {
-			c.SetRules = append(c.SetRules, c.Execs...)
-			c.ActSeqLo = c.ActStart
-		}
 		if len(c.SetRules) > 0 && !c.Completed {
 			if i+1 < len(a.Cycles) {
 				c.Completed = true
@@ -448,6 +442,29 @@ func MonProtocol(a *Analysis) []Violation {
 	if a.Res.Aborted {
 		vs = append(vs, Violation{"Protocol", 0, "", fmt.Sprintf("run did not end: cycle %d begun with MaxCycle %d", len(a.Cycles), a.Cfg.MaxCycle)})
 	}
+	// no action-side effect outside the window opened by an ExecuteRuleEntry notification
+	seenExec := false
+	for _, e := range a.Res.Events {
+		if e.L != 0 {
+			continue
+		}
+		switch e.Kind {
+		case "begin":
+			seenExec = false
+		case "exec":
+			seenExec = true
+		case "inc", "complete":
+			if !seenExec {
+				vs = append(vs, Violation{"Protocol", e.Cycle, "", "an action took effect (" + e.Kind + ") in a cycle that has not announced any ExecuteRuleEntry"})
+				seenExec = true // report once per cycle
+			}
+		case "method":
+			if (e.Key == "Mark" || e.Key == "Poke") && !seenExec {
+				vs = append(vs, Violation{"Protocol", e.Cycle, "", "an action method (" + e.Key + ") ran in a cycle that has not announced any ExecuteRuleEntry"})
+				seenExec = true
+			}
+		}
+	}
 	firings := 0
 	for i, c := range a.Cycles {
 		if c.N != uint64(i+1) {
@@ -459,13 +476,7 @@ func MonProtocol(a *Analysis) []Violation {
 		if len(c.Execs) > 1 {
 			vs = append(vs, Violation{"Protocol", c.N, "", "more than one ExecuteRuleEntry in one cycle"})
 		}
-		if len(c.Execs) != len(c.SetRules) {
-			vs = append(vs, Violation{"Protocol", c.N, "", fmt.Sprintf("%d ExecuteRuleEntry events for %d firings", len(c.Execs), len(c.SetRules))})
-		}
-		for k, name := range c.Execs {
-			if k < len(c.SetRules) && c.SetRules[k] != name {
-				vs = append(vs, Violation{"Protocol", c.N, name, "ExecuteRuleEntry names another rule than the one being executed (" + c.SetRules[k] + ")"})
-			}
+		for _, name := range c.Execs {
 			cand := false
 			for _, f := range c.Evals[name] {
 				cand = cand || f
@@ -617,7 +628,7 @@ func MonControl(a *Analysis) []Violation {
 		// no event after the iscomplete of the completing cycle
 		hi := cyc[completeAt].ActSeqHi
 		for _, e := range a.Res.Events {
-			if e.L == 0 && hi > 0 && e.Seq > hi && (e.Kind == "begin" || e.Kind == "eval" || e.Kind == "exec" || e.Kind == "setrule") {
+			if e.L == 0 && hi > 0 && e.Seq > hi && (e.Kind == "begin" || e.Kind == "eval" || e.Kind == "exec") {
 				vs = append(vs, Violation{"ControlEffects", cyc[completeAt].N, "", "event after Complete(): " + e.String()})
 				break
 			}
